@@ -37,6 +37,9 @@ def render_element(el, ind):
         if el["form"] == "star":
             return ["%simport %s.*;" % (ind, p)]
         return ["%simport %s.{%s};" % (ind, p, ", ".join(el["names"]))]
+    if k == "short":
+        mods = "(" + ", ".join("%s = %s" % (a, v) for a, v in el["mods"]) + ")" if el["mods"] else ""
+        return ["%stype %s = %s%s;" % (ind, el["name"], ".".join(el["base"]), mods)]
     if k == "class":
         lines = render_class(el["c"], ind)
         lines[-1] += ";"
